@@ -487,7 +487,7 @@ def string_to_ports(ports: str) -> LInt:
     ranges_t = _port_range_min_max(ranges)
     ports_calc = {i for o in ranges_t for i in o.range}  # ports in all ranges
     ports_calc.update(ints)
-    ports_ = [i for i in ports_calc if 1 <= i <= 65535]
+    ports_ = sorted(i for i in ports_calc if 1 <= i <= 65535)
     return ports_
 
 
